@@ -17,7 +17,7 @@ echo "== demo on clean tree: $cmd" >> "$log"
 grep -q -e '^FAIL' -e '--- FAIL' -e '^panic:' "$dst/demo_clean.out" && clean_rc=1
 cat "$dst/demo_clean.out" >> "$log"
 git checkout -q -- . 2>/dev/null; git clean -fdq --exclude=out >/dev/null 2>&1
-if ! git apply "out/$mk/patch.diff" 2>>"$log"; then echo "RESULT patch-does-not-apply" >> "$log"; cd /; git -C /repo worktree remove --force "$wt"; exit 1; fi
+if ! git apply "out/$mk/patch.diff" 2>>"$log" && ! patch -p1 -s -F3 --no-backup-if-mismatch < "out/$mk/patch.diff" >>"$log" 2>&1; then echo "RESULT patch-does-not-apply" >> "$log"; cd /; git -C /repo worktree remove --force "$wt"; exit 1; fi
 go build ./... >> "$log" 2>&1; build_rc=$?
 echo "== demo with mutant" >> "$log"
 ( sh -c "$cmd" ) > "$dst/demo_mutant.out" 2>&1; mut_rc=$?
